@@ -55,12 +55,18 @@ type uploadHarness struct {
 	// Close2: the caller closes the writer a second time (the usual `defer w.Close()` next to an explicit
 	// Close) and writes once more afterwards; both calls must return
 	Close2 bool `json:"second_close,omitempty"`
+	// BasicAuth: the client is built on HTTPClientWithBasicAuth (the request passes through the library's own
+	// wrapper, which must hand the caller's context and body on)
+	BasicAuth bool `json:"basic_auth,omitempty"`
 }
 
 func (h uploadHarness) String() string {
 	s := fmt.Sprintf("chunks=%v env.reads=%v env.terminal=%s canceller=%v", h.Chunks, h.Env.Reads, h.Env.Terminal, h.Canceller)
 	if h.Close2 {
 		s += " second-close"
+	}
+	if h.BasicAuth {
+		s += " basic-auth"
 	}
 	return s
 }
@@ -94,6 +100,7 @@ type fakeEnv struct {
 	got    []byte
 	took   string // terminal actually taken: answered:<code> | connerr | ctx
 	body   *trackedBody
+	auth   string // Authorization header of the request as it arrived
 }
 
 // trackedBody is the response body handed to the library; it records whether it was closed (an
@@ -166,6 +173,7 @@ func (e *fakeEnv) read(ctx context.Context, body io.Reader, closer io.Closer, n 
 
 func (e *fakeEnv) Do(req *http.Request) (*http.Response, error) {
 	ctx := req.Context()
+	e.auth = req.Header.Get("Authorization")
 	e.s.Point("env", "do")
 	if ctx.Err() != nil {
 		e.finish(req, "ctx")
@@ -244,7 +252,11 @@ func runUpload(t *testing.T, h uploadHarness, prefix []int) (s *sched.Sched, obs
 			ctx, cancel := context.WithCancel(context.Background())
 			env := &fakeEnv{s: s, script: h.Env, log: obs.Log}
 			obs.Env = env
-			cl, err := webdav.NewClient(env, "http://h/")
+			var hc webdav.HTTPClient = env
+			if h.BasicAuth {
+				hc = webdav.HTTPClientWithBasicAuth(env, "user", "secret")
+			}
+			cl, err := webdav.NewClient(hc, "http://h/")
 			if err != nil {
 				panic(err)
 			}
@@ -317,6 +329,9 @@ func judgeUpload(h uploadHarness, s *sched.Sched, o *uploadObs) string {
 	}
 	if !o.Closed {
 		return "close-did-not-return"
+	}
+	if h.BasicAuth && o.Env.auth != "Basic dXNlcjpzZWNyZXQ=" {
+		return fmt.Sprintf("basic-auth-credentials-not-sent: Authorization=%q", o.Env.auth)
 	}
 	if h.Close2 {
 		if !o.Closed2 {
@@ -412,6 +427,9 @@ func uploadHarnesses(full bool) []uploadHarness {
 					out = append(out, uploadHarness{Chunks: ch, Env: envScript{Reads: rs, Terminal: term}, Canceller: can})
 					if !can && (term == "201" || term == "403" || term == "connerr") {
 						out = append(out, uploadHarness{Chunks: ch, Env: envScript{Reads: rs, Terminal: term}, Close2: true})
+					}
+					if term == "stall" || term == "201" || term == "403" {
+						out = append(out, uploadHarness{Chunks: ch, Env: envScript{Reads: rs, Terminal: term}, Canceller: can, BasicAuth: true})
 					}
 				}
 			}
